@@ -3,8 +3,10 @@
 O (direct oracle, real classes only)
   * items of every type (type-directed generator) -> real `to_sml()` / `str()` -> real `Item.from_sml` -> same type structure and values
     (`_value` compared exactly, floats by IEEE bits, plus `encode()` bytes)
-  * rejection stream: every single-token deletion and every type-name mutation of valid SML, random strings over the token
-    alphabet and over a character alphabet; every parse under a 2 s watchdog (a hang is a violation); a deleted closing bracket or an
+  * rejection stream: every single-token deletion and every type-name mutation of valid SML, every single-character deletion
+    and every truncation of valid SML (so: input ending inside an open quoted literal), random strings over the token alphabet and over a
+    character alphabet; every call of the real tokenizer/parser/printer under a 2 s watchdog — exceeding it is violation class
+    `c15-nontermination` with the minimised input (after the first one the deadline drops to 0.4 s and the run stops after a few); a deleted closing bracket or an
     unknown type name must raise
   * the two laws assumed of the float text (`float(repr(x)) == x` bit for bit; no quote/bracket/whitespace in `repr(x)`) sampled;
     `float()` (as `ItemF4/F8._type`) rejects `<`, `>`, `.`, `''`, `>.` and accepts no string containing a bracket (literals + sample)
@@ -63,12 +65,29 @@ def _alarm(_sig, _frm):
 signal.signal(signal.SIGALRM, _alarm)
 
 
-def guarded(fn, seconds=2.0):
-    """Run fn() under a wall-clock watchdog.  Returns ('ok', value) | ('err', exc) | ('hang', None)."""
+class AbortRun(BaseException):
+    """too many non-terminating parses: stop exploring, report what was found"""
+
+
+HANGS = {"n": 0}
+FIRST_DEADLINE = 2.0     # the property's bound for one parse
+LATER_DEADLINE = 0.4     # once a parse has exceeded 2 s, later ones are cut earlier (a normal parse takes < 10 ms)
+HANG_HARD_LIMIT = 14
+
+
+def guarded(fn, seconds=None, count=True):
+    """Run fn() under a wall-clock watchdog (SIGALRM interrupts pure-Python loops).
+    Returns ('ok', value) | ('err', exc) | ('hang', None)."""
+    if seconds is None:
+        seconds = FIRST_DEADLINE if HANGS["n"] == 0 else LATER_DEADLINE
     signal.setitimer(signal.ITIMER_REAL, seconds)
     try:
         return "ok", fn()
     except Hang:
+        if count:
+            HANGS["n"] += 1
+            if HANGS["n"] >= HANG_HARD_LIMIT:
+                raise AbortRun() from None
         return "hang", None
     except RecursionError as exc:
         return "err", exc
@@ -76,6 +95,28 @@ def guarded(fn, seconds=2.0):
         return "err", exc
     finally:
         signal.setitimer(signal.ITIMER_REAL, 0)
+
+
+def hangs(text: str, seconds=0.25) -> bool:
+    """probe used while minimising a non-terminating input (not counted)"""
+    return guarded(lambda: Item.from_sml(text), seconds, count=False)[0] == "hang"
+
+
+def minimise_hang(text: str) -> str:
+    """shortest sub-text (characters dropped, order kept) on which the parser still does not terminate; bounded number of probes"""
+    if len(text) > 80:
+        return text
+    budget = {"n": 40}
+
+    def fails(chars):
+        if budget["n"] <= 0:
+            return False
+        budget["n"] -= 1
+        return hangs("".join(chars))
+    try:
+        return "".join(hlib.ddmin(list(text), fails))
+    except Exception:  # noqa: BLE001
+        return text
 
 
 # ------------------------------------------------------------------------------------------------ trees
@@ -274,11 +315,12 @@ def impl_parse(text: str):
 
 def roundtrip_fails(tree):
     """None if the real print -> real parse gives the item back, else a short reason"""
-    try:
-        it = build(tree)
-        text = it.to_sml()
-    except Exception as exc:  # noqa: BLE001
-        return "print raised " + type(exc).__name__
+    st, val = guarded(lambda: (lambda it: (it, it.to_sml()))(build(tree)))
+    if st == "hang":
+        return "hang"
+    if st == "err":
+        return "print raised " + type(val).__name__
+    it, text = val
     st, val = guarded(lambda: Item.from_sml(text))
     if st == "hang":
         return "hang"
@@ -425,13 +467,25 @@ def random_char_text(rng) -> str:
 
 
 def tokens_of(text: str):
-    return [t.value for t in SMLParser(text)._tokens]
+    """tokens of the real tokenizer, None if it does not terminate"""
+    st, val = guarded(lambda: [t.value for t in SMLParser(text)._tokens])
+    return val if st == "ok" else None
 
 
 # ------------------------------------------------------------------------------------------------ main
 def main():
     a = hlib.std_args()
     res = hlib.Result("C15", a.tier, a.seed)
+    try:
+        run(a, res)
+    except AbortRun:
+        res.notes.append(f"run cut short after {HANGS['n']} non-terminating parses (every one is a violation of the termination clause)")
+        if not any(v["class"] == "c15-nontermination" for v in res.violations):
+            res.violate("c15-nontermination", "the parser did not terminate within the deadline", {"text": None, "kind": "hang"})
+    res.dump(a.out)
+
+
+def run(a, res):
     rng = hlib.Rng(a.seed ^ 0xC15)
     drv = hlib.Driver()
     big = a.tier == "thorough" or a.search
@@ -441,6 +495,18 @@ def main():
                 "single-token deletion / type-name mutation of valid SML, random token strings, hand-layout SML, random character strings. "
                 "distinct = distinct canonical input; non-trivial = not the empty item / empty text")
     known_cap = {"c15-quote": 0, "c15-jis8-nonascii": 0}
+    hang_seen = {"n": 0}
+
+    def note_hang(text, origin):
+        """a parse of the real parser exceeded its deadline: violation of the termination clause, with the (minimised) input as replay"""
+        hang_seen["n"] += 1
+        res.bump("nontermination", origin)
+        if hang_seen["n"] <= 5:
+            mini = minimise_hang(text) if hang_seen["n"] == 1 else text
+            res.violate("c15-nontermination", f"Item.from_sml / SMLParser did not terminate within {FIRST_DEADLINE if hang_seen['n'] == 1 else LATER_DEADLINE} s",
+                        {"text": mini[:400], "kind": "hang", "origin": origin, "found_in": text[:400]}, "an item or an exception", "no result (watchdog)")
+        if hang_seen["n"] >= 6:
+            raise AbortRun()
 
     def report_failure(tree, why, origin):
         mini = minimise(tree)
@@ -477,7 +543,6 @@ def main():
                     res.violate(v["class"], v["what"], case, expected=case["item"], actual=why)
         for b in body.get("breaks", []):
             res.notes.append("replay: broken tie/proof recorded in the file: " + str(b)[:200])
-        res.dump(a.out)
         return
 
     # ------------------------------------------------------------ which variant is the implementation?  (DESIGN §4 "Model variants")
@@ -556,7 +621,10 @@ def main():
         if str(item) != text or repr(item) != text:
             res.violate("str-differs", "str(item)/repr(item) differ from to_sml()", {"item": key[:400]}, text[:200], str(item)[:200])
         why = roundtrip_fails(tree)
-        if why:
+        if why == "hang":
+            note_hang(text, "print/parse of a generated item")
+            res.bump("roundtrip", "fails:c15-nontermination")
+        elif why:
             klass = report_failure(tree, why, "generated item")
             res.bump("roundtrip", "fails:" + klass)
         else:
@@ -573,7 +641,7 @@ def main():
         # C: parse of the printed text (also of the defective ones: same error expected)
         ans, _ = impl_parse(text)
         if ans == "hang":
-            res.violate("hang", "the parser did not finish within 2 s", {"text": text[:400], "kind": "hang"})
+            note_hang(text, "printed text")
         else:
             pcases.append(text[:300])
             plines.append(parse_line(text))
@@ -591,7 +659,7 @@ def main():
         res.bump("reject_stream", origin)
         res.bump("reject_outcome", "hang" if ans == "hang" else ans.split(" ")[0] + (" " + ans.split(" ")[1] if ans.startswith("err") else ""))
         if ans == "hang":
-            res.violate("hang", "the parser did not finish within 2 s", {"text": text[:400], "kind": "hang", "origin": origin})
+            note_hang(text, origin)
             return
         if must_raise and ans.startswith("ok"):
             res.violate("accepts-" + must_raise, f"an item is returned for text with {must_raise.replace('-', ' ')}",
@@ -606,6 +674,9 @@ def main():
     n_del = n_mut = 0
     for text in base_texts:
         toks = tokens_of(text)
+        if toks is None:
+            note_hang(text, "tokenizer on valid SML")
+            continue
         if len(toks) > (160 if big else 60):
             continue
         joined = " ".join(toks)
@@ -634,18 +705,32 @@ def main():
     for i in range(30000 if big else 4000):
         reject_case(random_char_text(rng), None, "random-chars")
     # every strict prefix of a valid text lacks (at least) the final closing bracket
-    for text in base_texts[:(400 if big else 80)]:
+    quoted = [t for t in base_texts if '"' in t]
+    for text in quoted[:(200 if big else 40)] + base_texts[-(200 if big else 40):]:
         for cut in range(len(text)):
             reject_case(text[:cut], "missing-closing-bracket", "truncate")
+    # every single-character deletion of valid SML (in particular: each quote of a literal, each bracket, each separating blank)
+    n_chdel = 0
+    for text in [t for t in base_texts if '"' in t][:(300 if big else 50)] + base_texts[:(100 if big else 20)]:
+        if len(text) > 160:
+            continue
+        for i in range(len(text)):
+            reject_case(text[:i] + text[i + 1:], None, "delete-char:" + ("quote" if text[i] in "\"'" else "bracket" if text[i] in "<>[]" else "other"))
+            n_chdel += 1
+    res.exhaustive_parts.append(f"every single-character deletion of valid SML texts (those with quoted literals first): {n_chdel} texts")
     hlib.compare_batch(res, drv, "Item.from_sml vs Model.Sml.parse on the rejection stream", cases, lines, answers)
 
     # ------------------------------------------------------------ C. tokenizer and int() literal correspondence
     cases, lines, answers = [], [], []
     for i in range(20000 if big else 3000):
         t = random_char_text(rng) if i % 2 else random_token_text(rng)
+        toks = tokens_of(t)
+        if toks is None:
+            note_hang(t, "tokenizer on random text")
+            continue
         cases.append(t[:100])
         lines.append("sml tokens " + dotted(t))
-        answers.append("ok " + "|".join(dotted(x) for x in tokens_of(t)))
+        answers.append("ok " + "|".join(dotted(x) for x in toks))
         res.count(("tok", t), nontrivial=bool(t.strip()))
     hlib.compare_batch(res, drv, "SMLParser.parse_all vs Model.Sml.tokenize", cases, lines, answers)
     cases, lines, answers = [], [], []
@@ -708,8 +793,6 @@ def main():
                 res.violate("float-rejects-law", f"{cls.__name__}._type accepts a bracket / terminator token", {"text": t, "kind": "float-accepts"})
             res.bump("float_rejects_samples", "accepted" if accepted else "rejected")
     res.evaluations += n_rej
-
-    res.dump(a.out)
 
 
 def parse_sexp(s: str):
